@@ -27,7 +27,8 @@ type Mem struct {
 	arity int
 	sort  int
 	// base
-	ufName string
+	ufName   string
+	refBound func(*Term) *Term
 	// store
 	key []*Term
 	val *Term
@@ -119,6 +120,9 @@ func (m *Mem) Select(x *Exec, key []*Term) *Term {
 	switch m.kind {
 	case mBase:
 		r = tb.App(m.ufName, m.sort, key...)
+		if m.refBound != nil {
+			x.fact(m.refBound(r))
+		}
 	case mStore:
 		c := tb.True
 		for i := range key {
@@ -135,7 +139,7 @@ func (m *Mem) Select(x *Exec, key []*Term) *Term {
 		r = tb.Ite(m.cond, m.a.Select(x, key), m.b.Select(x, key))
 	case mCopy:
 		i := key[1]
-		in := tb.And(tb.Eq(key[0], m.dRef), tb.Cmp("bvule", m.dLo, i), tb.Cmp("bvult", tb.Sub(i, m.dLo), m.n))
+		in := tb.And(tb.Eq(key[0], m.dRef), tb.Cmp("bvult", tb.Sub(i, m.dLo), m.n))
 		if in.IsFalse() {
 			r = m.prev.Select(x, key)
 		} else {
